@@ -46,12 +46,23 @@ def main():
             res.append((sid, prop, verdict, detail))
     n = {v: sum(1 for r in res if r[2] == v) for v in ("CAUGHT", "MISSED", "NOAPPLY")}
     print("%d seeds: %s" % (len(res), n))
-    if not a.only:
-        with open(os.path.join(VERIF, "seeded", "RESULTS.md"), "w") as f:
-            f.write("# Seeded changes against the current quick checks (last full sweep)\n\nEach patch is applied to a scratch export of /repo HEAD and the quick check of the property it breaks is run with VERIF_REPO=<copy>.\n\n| seed | property | verdict | signatures / last line |\n|---|---|---|---|\n")
-            for sid, prop, verdict, detail in res:
-                f.write("| %s | %s | %s | %s |\n" % (sid, prop, verdict, detail.replace("|", "\\|")))
-            f.write("\n%d seeds: %s\n" % (len(res), n))
+    path = os.path.join(VERIF, "seeded", "RESULTS.md")
+    rows = {}
+    if a.only and os.path.exists(path):
+        # a partial sweep replaces only the rows of the seeds it ran
+        for line in open(path):
+            m = re.match(r"\| (S\d+-\S+) \| (C\d+) \| (\w+) \| (.*) \|$", line.rstrip("\n"))
+            if m:
+                rows[m.group(1)] = (m.group(1), m.group(2), m.group(3), m.group(4).replace("\\|", "|"))
+    for r in res:
+        rows[r[0]] = r
+    allr = sorted(rows.values(), key=lambda r: int(re.match(r"S(\d+)", r[0]).group(1)))
+    n = {v: sum(1 for r in allr if r[2] == v) for v in ("CAUGHT", "MISSED", "NOAPPLY")}
+    with open(path, "w") as f:
+        f.write("# Seeded changes against the current quick checks (last sweep of each seed)\n\nEach patch is applied to a scratch export of /repo HEAD and the quick check of the property it breaks is run with VERIF_REPO=<copy>.\n\n| seed | property | verdict | signatures / last line |\n|---|---|---|---|\n")
+        for sid, prop, verdict, detail in allr:
+            f.write("| %s | %s | %s | %s |\n" % (sid, prop, verdict, detail.replace("|", "\\|")))
+        f.write("\n%d seeds: %s\n" % (len(allr), n))
 
 if __name__ == "__main__":
     main()
